@@ -179,6 +179,12 @@ func matrixEvidence(h uint64, d []int) *types.DuplicateVoteEvidence {
 		signerB = 0
 	}
 	idx := idxIn(h, who)
+	if powerIn(refSet(h), who) == 0 && powerIn(otherSetOf(h), who) != 0 {
+		// not a validator at this height: the forger states the index the address has in the set it does belong to
+		vs := types.NewValidatorSet(valList(otherSetOf(h)))
+		i, _ := vs.GetByAddress(addrs[who])
+		idx = uint32(i)
+	}
 	vts := fx.blockTime[h].Add(1500 * time.Millisecond)
 	va := mkVote(who, signerA, h, 1, kproto.PrevoteType, idA, vts, idx, chainID)
 	vb := mkVote(who, signerB, hB, rB, tB, idB, vts, idx, chainID)
@@ -366,6 +372,8 @@ type aFailure struct {
 	Rank   int
 	What   string
 	Case   ACase
+	Group  string       // failures with the same oracle and group are one finding (default: the class)
+	Paths  map[int]bool // every path on which a member of the group failed
 }
 
 var (
@@ -373,22 +381,51 @@ var (
 	aFails  = map[string]*aFailure{}
 )
 
+func aLess(a, b *aFailure) bool {
+	if a.Rank != b.Rank {
+		return a.Rank < b.Rank
+	}
+	if a.Path != b.Path {
+		return a.Path < b.Path
+	}
+	return a.Class < b.Class
+}
+
 func noteAFailure(f aFailure) {
-	key := f.Oracle + "|" + pathName[f.Path] + "|" + f.Class
+	g := f.Group
+	if g == "" {
+		g = f.Class
+	}
+	key := f.Oracle + "|" + g
 	aFailMu.Lock()
-	if old, ok := aFails[key]; !ok || f.Rank < old.Rank {
+	if old, ok := aFails[key]; !ok {
 		c := f
+		c.Paths = map[int]bool{f.Path: true}
 		aFails[key] = &c
+	} else {
+		old.Paths[f.Path] = true
+		if aLess(&f, old) {
+			c := f
+			c.Paths = old.Paths
+			aFails[key] = &c
+		}
 	}
 	aFailMu.Unlock()
 }
 
+// aSignature names the smallest member of the group and every path on which the group failed.
 func aSignature(f *aFailure) string {
 	cl := f.Class
 	if f.Second != "" {
 		cl += "/" + f.Second
 	}
-	return fmt.Sprintf("C19|part=a|class=%s|path=%s|oracle=%s", cl, pathName[f.Path], f.Oracle)
+	var ps []string
+	for p := 0; p < len(pathName); p++ {
+		if f.Paths[p] {
+			ps = append(ps, pathName[p])
+		}
+	}
+	return fmt.Sprintf("C19|part=a|class=%s|path=%s|oracle=%s", cl, strings.Join(ps, "+"), f.Oracle)
 }
 
 func setName(h uint64) string {
@@ -425,7 +462,18 @@ func judge(e *poolEnv, c ACase, path int, ev *types.DuplicateVoteEvidence, ref r
 		// codec would have refused never reaches these entry points
 		r.Add("in_memory_valid_not_accepted", 1)
 	case ref.Valid && !o.Accepted:
-		noteAFailure(aFailure{Oracle: "valid-rejected", Path: path, Class: class, Second: second, Rank: rank, Case: c,
+		// one finding per (kind of accused, expiry class, set): named after its plainest pair of targets
+		val, id := 0, 0
+		if c.D != nil {
+			val, id = c.D[dVal], c.D[dID]
+		} else {
+			for k, n := range idName {
+				if n == class {
+					id = k
+				}
+			}
+		}
+		noteAFailure(aFailure{Oracle: "valid-rejected", Path: path, Class: class, Second: second, Rank: rank*10 + id, Case: c, Group: valName[val] + "|" + second,
 			What: fmt.Sprintf("reference-valid evidence (two differently-targeted validly signed votes of a member of the set of height %d, stated powers and block time, expiry class %s) rejected at stage %s: %s",
 				c.EvH, ref.Expiry, o.Stage, o.Err)})
 	case !ref.Valid && o.Accepted:
